@@ -663,6 +663,90 @@ Proof.
 Qed.
 
 
+(* ---- the texts on which TrimSpace leaves ASCII (trim_space = None), exactly ---- *)
+
+Fixpoint drop_ws (s : str) : str :=
+  match s with
+  | [] => []
+  | c :: r => if is_space c then drop_ws r else s
+  end.
+
+(* s without its leading and trailing ASCII white space *)
+Definition strip_ws (s : str) : str := rev (drop_ws (rev (drop_ws s))).
+
+Lemma drop_ws_decomp s :
+  exists ws, s = ws ++ drop_ws s /\ all_space ws = true /\
+             match drop_ws s with [] => True | c :: _ => is_space c = false end.
+Proof.
+  induction s as [|c r IH].
+  - exists []. repeat split.
+  - cbn [drop_ws]. destruct (is_space c) eqn:Hc.
+    + destruct IH as (ws & E & W & F). exists (c :: ws). split; [cbn [app]; rewrite <- E; reflexivity|].
+      split; [cbn; rewrite Hc; exact W|exact F].
+    + exists []. split; [reflexivity|]. split; [reflexivity|exact Hc].
+Qed.
+
+Lemma all_space_rev ws : all_space (rev ws) = all_space ws.
+Proof.
+  induction ws as [|c r IH]; [reflexivity|]. cbn [rev]. rewrite all_space_app, IH. cbn. rewrite andb_true_r. apply andb_comm.
+Qed.
+
+(* s = ws1 ++ strip_ws s ++ ws2, and the stripped text is empty or begins and ends with non-white bytes *)
+Lemma strip_ws_decomp s :
+  exists ws1 ws2, s = ws1 ++ strip_ws s ++ ws2 /\ all_space ws1 = true /\ all_space ws2 = true /\
+    match strip_ws s with [] => True | c :: r => is_space c = false /\ is_space (last r c) = false end.
+Proof.
+  destruct (drop_ws_decomp s) as (ws1 & E1 & W1 & F1).
+  destruct (drop_ws_decomp (rev (drop_ws s))) as (ws2 & E2 & W2 & F2).
+  unfold strip_ws. set (u := drop_ws s) in *. set (v := drop_ws (rev u)) in *.
+  assert (EU : u = rev v ++ rev ws2).
+  { rewrite <- rev_app_distr, <- E2, rev_involutive. reflexivity. }
+  exists ws1, (rev ws2). split; [rewrite <- EU; exact E1|]. split; [exact W1|]. split; [rewrite all_space_rev; exact W2|].
+  destruct v as [|d v']; [exact I|]. cbn [rev].
+  destruct (rev v' ++ [d]) as [|c r] eqn:ET; [destruct (rev v'); discriminate|].
+  split.
+  - rewrite EU in F1. cbn [rev] in F1. rewrite ET in F1. cbn [app] in F1. exact F1.
+  - assert (L : last (c :: r) c = d) by (rewrite <- ET; apply last_last).
+    destruct r as [|y r']; [cbn in L; subst c; exact F2|].
+    rewrite last_cons in L. rewrite L. exact F2.
+Qed.
+
+Lemma trim_stop_last_gen t d : is_space d = false ->
+  trim_stop (t ++ [d]) = if non_ascii d then None else Some (t ++ [d]).
+Proof.
+  intros Hd. induction t as [|x t IH].
+  - cbn [app]. rewrite trim_stop_cons. cbn [trim_stop]. rewrite Hd. reflexivity.
+  - cbn [app]. rewrite trim_stop_cons, IH. destruct (non_ascii d); [reflexivity|].
+    destruct (t ++ [d]) eqn:E; [destruct t; discriminate|reflexivity].
+Qed.
+
+(* TrimSpace in one equation: the ASCII-stripped text, unless that text begins or ends with a byte >= 0x80 *)
+Theorem trim_space_strip s :
+  trim_space s = match strip_ws s with
+                 | [] => Some []
+                 | c :: r => if non_ascii c || non_ascii (last r c) then None else Some (c :: r)
+                 end.
+Proof.
+  destruct (strip_ws_decomp s) as (ws1 & ws2 & E & W1 & W2 & F).
+  rewrite E at 1. rewrite (trim_space_lead ws1 _ W1), (trim_space_trail _ ws2 W2).
+  destruct (strip_ws s) as [|c r]; [reflexivity|]. destruct F as [Fc Fl].
+  unfold trim_space. rewrite trim_start_cons, Fc. destruct (non_ascii c) eqn:Nc; [reflexivity|]. cbn [orb].
+  destruct r as [|y r'] using rev_ind.
+  - cbn [last]. rewrite Nc. pose proof (trim_stop_last_gen [] c Fc) as X. cbn [app] in X. rewrite Nc in X. exact X.
+  - rewrite last_last in *. change (c :: r' ++ [y]) with ((c :: r') ++ [y]). apply trim_stop_last_gen. exact Fl.
+Qed.
+
+Corollary trim_space_none_iff s :
+  trim_space s = None <->
+  exists c r, strip_ws s = c :: r /\ (non_ascii c = true \/ non_ascii (last r c) = true).
+Proof.
+  rewrite trim_space_strip. destruct (strip_ws s) as [|c r].
+  - split; [discriminate|]. intros (c & r & H & _). discriminate.
+  - destruct (non_ascii c || non_ascii (last r c)) eqn:E.
+    + split; [|reflexivity]. intros _. exists c, r. split; [reflexivity|]. apply orb_true_iff. exact E.
+    + split; [discriminate|]. intros (c' & r' & [= <- <-] & H). apply orb_true_iff in H. congruence.
+Qed.
+
 Lemma firstn_skipn_app_left {A} (l x : list A) a n :
   a + n <= length l -> firstn n (skipn a (l ++ x)) = firstn n (skipn a l).
 Proof.
